@@ -19,6 +19,7 @@ TRANSLATORS = [
     ('translator.gen_lut', 'GenLut.v'),
     ('translator.gen_consts', 'GenConsts.v'),
     ('translator.gen_api', 'GenApi.v'),
+    ('translator.gen_memo', 'GenMemo.v'),
 ]
 
 FORBIDDEN = re.compile(r'\b(Admitted|admit|Axiom|Axioms|Parameter|Parameters|Conjecture|Conjectures|Abort All)\b'
